@@ -55,6 +55,7 @@ func (c13) Gen(r *rand.Rand, tier string, run int) *core.Case {
 	c.Params["subs"] = subs
 	c.Params["conns"] = conns
 	c.Params["share_proxy"] = r.IntN(2)
+	c.Params["instrument"] = []int{0, 0, 0, 1, 2, 3}[r.IntN(6)]
 	emit := func(n int) {
 		for i := 0; i < n; i++ {
 			c.Ops = append(c.Ops, core.Op{Kind: "emit", Actor: 50, X: int64(r.IntN(3)), Y: int64(r.IntN(4))})
@@ -199,6 +200,23 @@ func (c13) Run(c *core.Case, env *core.Env) {
 			env.Violate("setup/proxy", "%v", err)
 			return
 		}
+	}
+	// statistics and tracing change the path replies and events take inside
+	// an object (wrapped channels, a tracer per message)
+	if k := c.P("instrument", 0); k > 0 {
+		if k&1 != 0 {
+			if err := shared[0].EnableStats(true); err != nil {
+				env.Violate("setup/stats", "%v", err)
+				return
+			}
+		}
+		if k&2 != 0 {
+			if err := shared[0].EnableTrace(true); err != nil {
+				env.Violate("setup/trace", "%v", err)
+				return
+			}
+		}
+		env.Probe("object-instrumented")
 	}
 	// phases are separated by "barrier" operations (quiescence in between)
 	var phases [][]core.Op
